@@ -8,6 +8,23 @@ ALL = [f"C{i:02d}" for i in range(1, 21)]
 
 # id -> (technique, level text, level note, design ref)
 CHECKS = {
+    "C06": (
+        "exhaustive enumeration of a complete catalogue of call templates (every function dispatching through "
+        "__array_function__ and the ndarray methods) x dtype x payload pack x unit assignment on the real code, "
+        "differential against NumPy on the stripped data",
+        "All 261 NumPy functions that dispatch through __array_function__ (numpy, numpy.linalg, numpy.fft; a "
+        "completeness gate fails the harness if one has no template) and ~50 ndarray methods are exercised by "
+        "1438 call templates - positional, keyword and out= forms with non-default axis/decimals/mode/side/k/"
+        "ddof/keepdims/endpoint/... arguments chosen so that dropping or mis-forwarding one changes the result - "
+        "over 0-d, size-1, 1-d, 2-d, square, stacked and empty shapes, float/int/complex data, 1 (quick) or 4 "
+        "(thorough) payload packs and 2 (quick) or 4 (thorough) unit assignments. Each template is executed on "
+        "bare ndarrays and on unyt arrays holding the same numbers: both raise, or every leaf of the result "
+        "tree has the same shape, dtype kind and values and every out=/in-place target holds the same numbers.",
+        "A call unyt refuses while NumPy succeeds is allowed by the statement; the refused templates are listed in "
+        "the evidence. Float results are compared to 64 eps of the largest reference magnitude (re-association), "
+        "integer/bool/index results exactly.",
+        "DESIGN.md section 6 C06, Appendix A",
+    ),
     "C15": (
         "complete enumeration of the finite constant table x names x suffixes x unit-system registries, plus all "
         "defining relations, against independent reference values and EM counterpart factors",
